@@ -104,6 +104,39 @@ Section Joint.
     - rewrite number_from_0. apply joint_fold_applicable. exact HF.
   Qed.
 
+  (* inapplicable actions explicitly allowed: nothing is refused - the joint action is again the members one after
+     the other in list order (provided the applicability tests themselves raise nothing) *)
+  Lemma joint_member_allowed orig acc i c b :
+    call_applicable d eps objs c orig = Ok b ->
+    joint_member d eps objs true sch orig acc (i, c) =
+    (do s <- apply_call d eps objs true (sch i) c (ms_st acc); Ok {| ms_init := false; ms_st := s |}).
+  Proof.
+    unfold call_applicable, joint_member, apply_call, apply_action. simpl.
+    destruct (dget (d_actions d) (ac_name c)) as [a|]; [|discriminate].
+    destruct (ground_action d a (ac_args c)) as [ga|k]; simpl; [|discriminate].
+    intros H. rewrite H. simpl. rewrite orb_true_r. reflexivity.
+  Qed.
+
+  Theorem apply_actions_allowed cur calls :
+    Forall (fun c => exists b, call_applicable d eps objs c (ms_st cur) = Ok b) (filter (fun c => negb (is_nop c)) calls) ->
+    apply_actions d eps objs sch cur calls true =
+    (do s' <- seq_members (ms_st cur) (number (filter (fun c => negb (is_nop c)) calls));
+     Ok {| ms_init := false; ms_st := s' |}).
+  Proof.
+    unfold apply_actions. set (ex := filter (fun c => negb (is_nop c)) calls). intros HF.
+    assert (Hfold : forall l k s, Forall (fun c => exists b, call_applicable d eps objs c (ms_st cur) = Ok b) l ->
+              foldM (joint_member d eps objs true sch (ms_st cur)) (number_from k l) {| ms_init := false; ms_st := s |} =
+              (do s' <- seq_members s (number_from k l); Ok {| ms_init := false; ms_st := s' |})).
+    { unfold seq_members. induction l as [|c r IH]; intros k s Hl; [reflexivity|].
+      inversion Hl as [|x l' [b Hb] Hr]; subst. rewrite number_from_cons. simpl.
+      rewrite (joint_member_allowed _ _ k c b Hb). simpl.
+      destruct (apply_call d eps objs true (sch k) c s) as [s1|e]; simpl; [apply IH; exact Hr | reflexivity]. }
+    destruct ex as [|c [|c2 r]] eqn:E.
+    - reflexivity.
+    - unfold seq_members. simpl. destruct (apply_call d eps objs true (sch 0) c (ms_st cur)); reflexivity.
+    - rewrite number_from_0. apply Hfold. exact HF.
+  Qed.
+
   (* some member inapplicable in the current state and inapplicable actions not allowed: ValueError.
      [before] are the members in front of it (all applicable; applying them raised nothing) *)
   Theorem apply_actions_refuses cur calls before c after s1 :
